@@ -172,11 +172,17 @@ def call(query, ajax):
     return st.get('status'), dict(st.get('headers') or []), b''.join(body)
 
 
+_last_accepted = None   # number of accepting modules seen by the last evaluate() (None: is_valid raised)
+
+
 def evaluate(query, ajax):
     """None if the request satisfies the predicate, else a list of violation dicts
     {observed, expected, site, relation}"""
+    global _last_accepted
+    _last_accepted = None
     try:
         number, accepted, nonstr, items = reference(query)
+        _last_accepted = len(accepted)
     except Exception as e:   # noqa: B902
         # is_valid()/format() itself raised on this text: the application cannot answer either
         number, accepted, nonstr, items = None, None, [], None
@@ -187,7 +193,7 @@ def evaluate(query, ajax):
         observed = 'raises %s: %s' % (type(e).__name__, str(e)[:80])
         if isinstance(e, AttributeError) and nonstr and not ajax:
             return [{
-                'observed': observed, 'expected': 'status 200 with the conversion shown as text',
+                'observed': 'raises AttributeError (html.escape() on the %s returned by %s.%s)' % (t[2], t[0], t[1]), 'expected': 'status 200 with the conversion shown as text',
                 'relation': 'no server error',
                 'site': 'online_check/stdnum.wsgi:format:html.escape(conversion) <- %s.%s returns %s' % t,
                 'getter': list(t)} for t in sorted(set(nonstr))]
@@ -292,8 +298,9 @@ def gen_queries(rng, tier):
         elif k == 5:
             out.append(('empty', rng.choice(['number=', 'number=&x=1', 'number=&number=', 'number=&number=1'])))
         elif k == 6:
-            n = rng.choice([1000, 10000, 70000])
-            out.append(('long', 'number=' + rng.choice(['1', 'A', '%3C', '%E2%80%93', '9 ']) * n))
+            unit = rng.choice(['1', 'A', '%3C', '%E2%80%93', '9 '])
+            n = rng.choice([1000, 5000, 70000] if unit in ('1', 'A') else [1000, 5000])
+            out.append(('long', 'number=' + unit * n))
         elif k == 7:
             out.append(('digits', 'number=' + ''.join(rng.choice('0123456789') for _ in range(rng.randint(1, 20)))))
         elif k == 8:
@@ -333,20 +340,11 @@ def _worker(chunk):
         try:
             params = urllib.parse.parse_qs(query)
             number = params['number'][0] if 'number' in params else ''
-            nontrivial = bool(set(number) & set('<>&"\''))
-            if not nontrivial and number:
-                nontrivial = any(_safe_valid(m, number) for m in modules())
+            nontrivial = bool(set(number) & set('<>&"\'')) or _last_accepted is None or _last_accepted > 0
         except Exception:   # noqa: B902
             nontrivial = True
         res.append((label, query, ajax, bad, nontrivial))
     return res
-
-
-def _safe_valid(m, number):
-    try:
-        return bool(m.is_valid(number))
-    except Exception:   # noqa: B902
-        return True
 
 
 def make_case(query, ajax, v):
